@@ -33,6 +33,8 @@ class Gen:
         self.callee_levels = []
         self.leaf_only = False
         self.vec_frozen = 0
+        self.impure = False          # set while generating a function body that writes to something it did not declare itself
+        self.allow_impure = False    # impure callables may only be called at statement level (evaluation order is unspecified otherwise)
 
     # ------------------------------------------------------------ helpers
     def fresh(self, prefix="v"):
@@ -58,6 +60,17 @@ class Gen:
             if name not in seen and (typ is None or t == typ):
                 out.append(name)
         return out
+
+    def note_write(self, name):
+        """a write to a parameter, capture or global from inside a function body makes the function impure"""
+        if self.in_func is None:
+            return
+        for sc in reversed(self.scopes):
+            if sc.kind in ("func", "lambda", "method"):
+                self.impure = True      # declared in the frame itself (parameter / capture / this) or not local at all
+                return
+            if name in sc.vars:
+                return
 
     def declare(self, name, typ, protected=False):
         self.scopes[-1].vars[name] = typ
@@ -197,30 +210,40 @@ class Gen:
 
     def call_expr(self, rtyp, d):
         r = self.rng
-        cands = [(n, sig) for n, sig in self.funcs.items() if sig[1] == rtyp and sig[2] <= self.call_budget()]
+        def usable(impure):
+            return self.allow_impure or not impure
+        cands = [(n, sig) for n, sig in self.funcs.items() if sig[1] == rtyp and sig[2] <= self.call_budget() and usable(len(sig) > 5 and sig[5])]
         lam = []
         for name in self.visible():
             t = self.type_of(name)
-            if isinstance(t, tuple) and t[0] == "fun" and t[2] == rtyp and t[3] <= self.call_budget():
+            if isinstance(t, tuple) and t[0] == "fun" and t[2] == rtyp and t[3] <= self.call_budget() and usable(len(t) > 4 and t[4]):
                 lam.append((name, t))
         if not cands and not lam:
             return None
         if lam and (not cands or r.random() < 0.4):
             name, t = r.choice(lam)
             self.callee_levels.append(t[3])
-            return ("call", name, [self.arg_for(pt, d) for pt in t[1]])
+            saved_allow, self.allow_impure = self.allow_impure, False
+            largs = [self.arg_for(pt, d) for pt in t[1]]
+            self.allow_impure = saved_allow
+            return ("call", name, largs)
         name, sig = r.choice(cands)
         args = []
+        saved_allow, self.allow_impure = self.allow_impure, False        # arguments are ordinary (pure) expressions
         mut = sig[4] if len(sig) > 4 else [False] * len(sig[0])
         for pt, m in zip(sig[0], mut):
             if m:
                 # the callee assigns to this parameter, which aliases the argument: pass an assignable variable
                 vs = self.visible(pt, assignable=True)
                 if not vs:
+                    self.allow_impure = saved_allow
                     return None
-                args.append(("var", r.choice(vs)))
+                av = r.choice(vs)
+                self.note_write(av)
+                args.append(("var", av))
             else:
                 args.append(self.arg_for(pt, d))
+        self.allow_impure = saved_allow
         self.callee_levels.append(sig[2])
         if sig[3]:       # recursion-bounded first parameter: small literal
             args[0] = ("int", r.randrange(0, self.p["rec_depth"]))
@@ -259,7 +282,7 @@ class Gen:
         o = r.choice(objs)
         cls = self.classes[self.type_of(o)[1]]
         attrs = [a for a, t in cls["attrs"].items() if t == typ]
-        meths = [(m, s) for m, s in cls["methods"].items() if s[1] == typ]
+        meths = [(m, s) for m, s in cls["methods"].items() if s[1] == typ and (self.allow_impure or not s[2])]
         if meths and (not attrs or r.random() < 0.5):
             m, s = r.choice(meths)
             return ("mcall", ("var", o), m, [self.expr(pt, 1) for pt in s[0]])
@@ -361,6 +384,7 @@ class Gen:
         if not vs:
             return self.s_decl()
         v = r.choice(vs)
+        self.note_write(v)
         if t == INT:
             op = r.choice(["=", "=", "+=", "-=", "*=", "=", "%=", "&=", "|="])
             if op == "=":
@@ -383,7 +407,9 @@ class Gen:
         vs = self.visible(INT, assignable=True)
         if not vs:
             return self.s_decl()
-        return [("incr", self.rng.choice(vs), self.rng.choice(["++", "--"]))]
+        v = self.rng.choice(vs)
+        self.note_write(v)
+        return [("incr", v, self.rng.choice(["++", "--"]))]
 
     def s_print(self):
         t = self.rng.choice([INT, INT, BOOL, STR, VEC])
@@ -399,8 +425,15 @@ class Gen:
         # unused results: calls and bare constants / identifiers
         r = self.rng
         if r.random() < 0.6:
+            saved_allow, self.allow_impure = self.allow_impure, True        # the call is the whole statement
             c = self.call_expr(r.choice([INT, BOOL, STR]), 1)
+            self.allow_impure = saved_allow
             if c:
+                if r.random() < 0.4:
+                    name = self.fresh()
+                    t = self.funcs[c[1]][1] if c[1] in self.funcs else self.type_of(c[1])[2]
+                    self.declare(name, t)
+                    return [("decl", name, c)]
                 return [("expr", c)]
         if r.random() < 0.5:
             vs = self.visible()
@@ -533,6 +566,7 @@ class Gen:
             self.declare(name, VEC)
             return [("decl", name, e)]
         v = r.choice(vs)
+        self.note_write(v)
         k = r.random()
         if self.vec_frozen:
             k = max(k, 0.45)
@@ -570,9 +604,10 @@ class Gen:
         if r.random() < self.p["guards"] and params and not recursive:
             guard = self.bool_expr(1)
         saved_levels, self.callee_levels = self.callee_levels, []
+        saved_impure, self.impure = self.impure, any(mut)
         body = []
         if recursive:
-            self.funcs[name] = (ptypes, rt, 99, True, mut)      # not callable from its own body except through the explicit self call
+            self.funcs[name] = (ptypes, rt, 99, True, mut, False)      # not callable from its own body except through the explicit self call
             n0 = params[0][0]
             rec_args = [("bin", "-", ("var", n0), ("int", 1))] + [self.expr(pt, 1) for pt in ptypes[1:]]
             body.append(("if", [(("bin", "<=", ("var", n0), ("int", 0)), [("return", self.small_int())])], None))
@@ -590,7 +625,8 @@ class Gen:
         self.in_func, self.in_loop, self.depth = saved
         level = 1 + max(self.callee_levels + [0])
         self.callee_levels = saved_levels
-        self.funcs[name] = (ptypes, rt, max(level, 2) if recursive else level, recursive, mut)
+        self.funcs[name] = (ptypes, rt, max(level, 2) if recursive else level, recursive, mut, self.impure)
+        self.impure = saved_impure
         return [("def", name, [(pn, pt if ty else None) for (pn, pt), ty in zip(params, typed)], guard, body)]
 
     def block_inline(self, n):
@@ -622,13 +658,15 @@ class Gen:
         for pn, pt in params:
             self.declare(pn, pt, protected=True)
         saved_leaf, self.leaf_only = self.leaf_only, True
+        saved_impure, self.impure = self.impure, False
         self.depth = self.p["max_depth"]            # simple statements only
         body = self.block_inline(r.randrange(0, 3))
         body.append(("expr", self.expr(rt)) if r.random() < 0.6 else ("return", self.expr(rt)))
         self.leaf_only = saved_leaf
         self.pop()
         self.in_func, self.in_loop, self.depth = saved
-        self.declare(name, ("fun", tuple(ptypes), rt, 2))
+        lam_impure, self.impure = self.impure, saved_impure
+        self.declare(name, ("fun", tuple(ptypes), rt, 2, lam_impure))
         return [("decl", name, ("lambda", caps, [pn for pn, _ in params], body))]
 
     def s_class(self):
@@ -654,17 +692,20 @@ class Gen:
             for pn, pt in params:
                 self.declare(pn, pt, protected=True)
             saved_leaf, self.leaf_only = self.leaf_only, True
+            saved_impure, self.impure = self.impure, False
             self.depth = self.p["max_depth"]
             body = []
             ia = [a for a, t in attrs.items() if t == INT]
             if ia and r.random() < 0.6:
+                self.impure = True
                 a = r.choice(ia)
                 body.append(("assign", ("attr", ("var", "this"), a), "=", ("bin", "%", ("bin", "+", ("attr", ("var", "this"), a), self.int_expr(1)), ("int", 1000))))
             body += self.block_inline(r.randrange(0, 2))
             body.append(("expr", self.expr(rt)) if r.random() < 0.5 else ("return", self.expr(rt)))
             self.leaf_only = saved_leaf
             self.pop()
-            cls["methods"][mname] = (ptypes, rt)
+            cls["methods"][mname] = (ptypes, rt, self.impure)
+            self.impure = saved_impure
             methods.append((mname, [pn for pn, _ in params], body))
         self.in_func, self.in_loop, self.depth = saved
         cls["ctor"] = [t for _, t in ctor_params]
@@ -690,7 +731,7 @@ class Gen:
         k = r.random()
         if k < 0.4 and cls["methods"]:
             m, s = r.choice(list(cls["methods"].items()))
-            return [("print", ("mcall", ("var", o), m, [self.expr(pt, 1) for pt in s[0]]))]
+            return [("print", ("mcall", ("var", o), m, [self.expr(pt, 1) for pt in s[0]]))]      # the call is the whole printed expression
         if k < 0.7:
             a, t = r.choice(list(cls["attrs"].items()))
             return [("assign", ("attr", ("var", o), a), "=", self.expr(t, 1))]
